@@ -141,7 +141,7 @@ func (c14) Run(c *Case, st *Stats) []Violation {
 		in := make(chan *asset.Snapshot, c.Cap)
 		simrt.GoKind("prod", func() {
 			for _, v := range snaps {
-				simrt.Yield(-2, "prod-send")
+				prodYield()
 				in <- v
 			}
 			simrt.Yield(-3, "prod-close")
@@ -372,7 +372,7 @@ func (c14) Run(c *Case, st *Stats) []Violation {
 			in := make(chan *asset.Snapshot)
 			simrt.GoKind("prod", func() {
 				for _, v := range pert {
-					simrt.Yield(-2, "prod-send")
+					prodYield()
 					in <- v
 				}
 				simrt.Yield(-3, "prod-close")
